@@ -62,15 +62,28 @@ Definition zz_eqb (a b : Z * Z) : bool := (fst a =? fst b) && (snd a =? snd b).
 (* a case: the side, and groups (events, DATA frames (stream, length) MOSN wrote while they were handled, in
    order).  A group is one frame of the peer (or the opening of a stream) followed by the sender iterations it
    enables; the harness waits for quiescence between groups, so the trace is deterministic for a single sender. *)
-Definition flow_group := (list event * list (Z * Z))%type.
+(* the third component: (stream, its send window, the connection send window) read from MOSN (VerifSendWindow)
+   after the group, if the harness looked *)
+Definition flow_group := (list event * list (Z * Z) * option (Z * Z * Z))%type.
 Definition flow_case := (side * list flow_group)%type.
+
+Definition windows_ok (c : conn) (w : option (Z * Z * Z)) : bool :=
+  match w with
+  | None => true
+  | Some (sid, sw, cw) =>
+      match find_s sid (c_strs c) with
+      | Some s => (s_win s =? sw) && (c_win c =? cw)
+      | None => false
+      end
+  end.
 
 Fixpoint flow_groups_ok (g : cfg) (c : conn) (gs : list flow_group) : bool :=
   match gs with
   | [] => negb (c_panic c)
-  | (evs, want) :: r =>
+  | (evs, want, win) :: r =>
       let x := run g c evs in
-      list_eqb zz_eqb (map (fun f => (f_sid f, f_len f)) (snd x)) want && flow_groups_ok g (fst x) r
+      list_eqb zz_eqb (map (fun f => (f_sid f, f_len f)) (snd x)) want && windows_ok (fst x) win &&
+      flow_groups_ok g (fst x) r
   end.
 Definition flow_check (c : flow_case) : bool := flow_groups_ok (cfg_of (fst c)) conn_default (snd c).
 Definition flow_mismatches := mismatches flow_check.
